@@ -35,6 +35,7 @@ enum Kind {
 
 #[derive(Default, Clone)]
 struct Target {
+    spec_text: String,   // all directive lines of this target (to find which generated definitions it relies on)
     raw: Option<String>, // a verbatim block of glue definitions emitted at this position
     file: String,
     func: String, // "name" or "Type::name"
@@ -436,6 +437,15 @@ impl<'a> Tr<'a> {
                 }
                 Ok((format!("({} {})", ctor, parts.join(" ")), Kind::Other))
             }
+            Expr::Array(a) => {
+                // [a, b, c]: a list
+                let mut parts = Vec::new();
+                for x in &a.elems {
+                    parts.push(self.expr(x, binds)?.0);
+                }
+                Ok((format!("[{}]", parts.join("; ")), Kind::Other))
+            }
+            Expr::Tuple(t) if t.elems.is_empty() => Ok(("tt".to_string(), Kind::Other)),
             Expr::Tuple(t) => {
                 let mut parts = Vec::new();
                 for x in &t.elems {
@@ -1252,6 +1262,45 @@ impl<'a> Tr<'a> {
                     fuel, Self::tuple_pat(&params), body, Self::tuple_of(&init), Self::tuple_pat(&outs), restc
                 ))
             }
+            Expr::While(w) => {
+                // while c { body }  on fuel: the state is what the body assigns
+                let fuel = self.t.loopfuel.clone().ok_or("a `while` needs a loopfuel entry")?;
+                let fuel = self.subst_vars(&fuel);
+                let sc = scan_block_with(&w.body, self.mk_scan());
+                if sc.value_return || sc.has_break {
+                    return Err("return / break inside a `while`".into());
+                }
+                let vars: Vec<String> = sc.assigned.into_iter().filter(|v| self.lookup(v).is_some()).collect();
+                let mut init = Vec::new();
+                for v in &vars {
+                    init.push(self.lookup(v).unwrap().0);
+                }
+                let saved = self.env.clone();
+                let mut params = Vec::new();
+                for v in &vars {
+                    params.push(self.rebind(v)?);
+                }
+                let env_in = self.env.clone();
+                let mut cb = Vec::new();
+                let cond = self.expr(&w.cond, &mut cb);
+                self.env = env_in;
+                self.env.push(HashMap::new());
+                let body = self.seq(&w.body.stmts, &K::Join(vars.clone()));
+                self.env = saved;
+                let (c, _) = cond?;
+                let cond_term = Self::wrap_binds(cb, format!("Ok {}", c));
+                let body = body?;
+                let mut outs = Vec::new();
+                for v in &vars {
+                    outs.push(self.rebind(v)?);
+                }
+                let restc = self.seq(rest, k)?;
+                Ok(format!(
+                    "obind (while_fuel ({}) (fun {} =>\n{}) (fun {} =>\n{}) {}) (fun {} =>\n{})",
+                    fuel, Self::tuple_pat(&params), cond_term, Self::tuple_pat(&params), body,
+                    Self::tuple_of(&init), Self::tuple_pat(&outs), restc
+                ))
+            }
             Expr::Break(_) => {
                 let vars = self.loop_brk.last().cloned().ok_or("break outside a translated `loop`")?;
                 let mut parts = Vec::new();
@@ -1263,6 +1312,25 @@ impl<'a> Tr<'a> {
             Expr::Block(b) => self.block(&b.block, rest, k),
             Expr::MethodCall(m) if !rest.is_empty() || !matches!(k, K::End | K::Val) || true => {
                 let key = format!("{}/{}", m.method, m.args.len());
+                if let (Some(tmpl), Expr::Index(ix)) = (self.t.mutmethod.get(&key).cloned(), &*m.receiver) {
+                    if !matches!(&*ix.index, Expr::Range(_)) && self.lookup(&toks(&ix.expr)).is_some() {
+                        // v[i].push(x);  — element i of the vector variable v gets a new value
+                        let base = toks(&ix.expr);
+                        let mut binds = Vec::new();
+                        let (b0, _) = self.expr(&ix.expr, &mut binds)?;
+                        let (i0, _) = self.expr(&ix.index, &mut binds)?;
+                        let old = self.fresh("e");
+                        binds.push((old.clone(), format!("vec_idx_p {} {} {}", self.t.panic_site, b0, i0)));
+                        let mut args = vec![old.clone()];
+                        for a in &m.args {
+                            args.push(self.expr(a, &mut binds)?.0);
+                        }
+                        let v = Self::subst(&tmpl, &args);
+                        let c = self.rebind(&base)?;
+                        let restc = self.seq(rest, k)?;
+                        return Ok(Self::wrap_binds(binds, format!("let {} := vec_set {} {} ({}) in\n{}", c, b0, i0, v, restc)));
+                    }
+                }
                 if let Some(tmpl) = self.t.mutmethod.get(&key).cloned() {
                     // x.extend(y);  — the receiver variable gets a new value
                     let recv = toks(&m.receiver);
@@ -1290,6 +1358,13 @@ impl<'a> Tr<'a> {
                     let c = self.rebind(&recv)?;
                     let restc = self.seq(rest, k)?;
                     return Ok(Self::wrap_binds(binds, format!("obind ({}) (fun {} =>\n{})", v, c, restc)));
+                }
+                if (m.method == "unwrap" || m.method == "expect") && self.is_fallible(&m.receiver) && (!rest.is_empty() || !self.tail_position(k)) {
+                    // f(x).unwrap();  — the value is dropped, an error is a panic
+                    let mut binds = Vec::new();
+                    let r = self.res_expr(&m.receiver, &mut binds)?;
+                    let restc = self.seq(rest, k)?;
+                    return Ok(Self::wrap_binds(binds, format!("obind (unwrap_p {} ({})) (fun _ =>\n{})", self.t.panic_site, r, restc)));
                 }
                 if self.is_fallible(e) && (!rest.is_empty() || !self.tail_position(k)) {
                     // self.validate_x();  — may panic, value dropped
@@ -1694,7 +1769,10 @@ impl<'ast> syn::visit::Visit<'ast> for Scan {
     fn visit_expr_method_call(&mut self, m: &'ast syn::ExprMethodCall) {
         let key = format!("{}/{}", m.method, m.args.len());
         if self.mutmethods.contains(&key) {
-            let n = toks(&m.receiver);
+            let n = match &*m.receiver {
+                Expr::Index(ix) if !matches!(&*ix.index, Expr::Range(_)) => toks(&ix.expr),
+                other => toks(other),
+            };
             if !self.assigned.contains(&n) {
                 self.assigned.push(n);
             }
@@ -1779,6 +1857,8 @@ fn parse_targets(text: &str) -> (String, Vec<Target>) {
             continue;
         }
         let t = out.last_mut().expect("directive before [target]");
+        t.spec_text.push_str(l);
+        t.spec_text.push('\n');
         let (key, rest) = match l.split_once(' ') {
             Some(x) => x,
             None => (l, ""),
@@ -1966,103 +2046,140 @@ fn main() {
     text.push_str("(* GENERATED by /verif/rs2coq from /repo's current sources. DO NOT EDIT. *)\n");
     text.push_str(&prelude);
     let mut failed = false;
+    // definitions that could not be produced on this run: targets (and glue blocks) that rely on them
+    // are left out too, everything else is still generated, so that only the theorems about the
+    // affected functions lose their subject
+    let mut missing: Vec<String> = Vec::new();
     for t0 in targets {
         if let Some(r) = &t0.raw {
+            if let Some(dep) = missing.iter().find(|m| mentions(r, m)).cloned() {
+                for name in defined_names(r) {
+                    eprintln!("rs2coq: glue definition {} left out: it relies on {}", name, dep);
+                    missing.push(name);
+                }
+                failed = true;
+                continue;
+            }
             text.push_str("\n");
             text.push_str(r);
             continue;
         }
-        let mut t = t0.clone();
-        let src = match std::fs::read_to_string(format!("{}/{}", repo, t.file)) {
-            Ok(s) => s,
-            Err(e) => {
-                eprintln!("rs2coq: {}: {}", t.file, e);
-                failed = true;
-                continue;
-            }
-        };
-        let file = match syn::parse_file(&src) {
-            Ok(f) => f,
-            Err(e) => {
-                eprintln!("rs2coq: {} does not parse: {}", t.file, e);
-                failed = true;
-                continue;
-            }
-        };
-        let (sig, block) = match find_fn(&file, &t.func) {
-            Some(x) => x,
-            None => {
-                eprintln!("rs2coq: function {} not found in {}", t.func, t.file);
-                failed = true;
-                continue;
-            }
-        };
-        // the parameter list is part of the contract
-        let rust_params: Vec<String> = sig
-            .inputs
-            .iter()
-            .filter_map(|a| match a {
-                syn::FnArg::Typed(p) => Some(match &*p.pat {
-                    Pat::Ident(i) => i.ident.to_string(), // `mut x` is the parameter x
-                    other => toks(other),
-                }),
-                syn::FnArg::Receiver(_) => None,
-            })
-            .collect();
-        let declared: Vec<String> = t.params.iter().map(|p| p.0.clone()).filter(|p| p != "self" && !p.starts_with("self.")).collect();
-        if rust_params != declared {
-            eprintln!("rs2coq: {}: parameters are {:?}, the table declares {:?}", t.func, rust_params, declared);
+        if let Some(dep) = missing.iter().find(|m| mentions(&t0.spec_text, m)).cloned() {
+            eprintln!("rs2coq: {} :: {} left out: it relies on {}", t0.file, t0.func, dep);
+            text.push_str(&format!("\n(* NOT GENERATED on this run: {} :: {} relies on {} *)\n", t0.file, t0.func, dep));
+            missing.push(t0.coq.clone());
             failed = true;
             continue;
         }
-        module_consts(&file, &mut t);
-        local_consts(block, &mut t);
-        let mut tr = Tr { t: &t, fresh: 0, env: vec![HashMap::new()], loop_depth: 0, loop_sr: Vec::new(), loop_brk: Vec::new() };
-        let kw = if t.recfuel.is_some() { "Fixpoint" } else { "Definition" };
-        let mut header = format!("{} {}", kw, t.coq);
-        if t.recfuel.is_some() {
-            header.push_str(" (fuel : nat)");
-        }
-        for (r, c, ty) in &t.params {
-            let kind = t.kinds.get(r).cloned().unwrap_or(Kind::Other);
-            tr.env[0].insert(r.clone(), (c.clone(), kind));
-            let _ = write!(header, " ({} : {})", c, ty);
-        }
-        for (c, ty) in &t.extra_params {
-            header = header.replacen(&format!("{} {}", kw, t.coq), &format!("{} {} ({} : {})", kw, t.coq, c, ty), 1);
-        }
-        if t.recfuel.is_some() {
-            header.push_str(" {struct fuel}");
-        }
-        let _ = write!(header, " : res ({}) :=\n", t.ret);
-        match tr.seq(&block.stmts, &K::End) {
-            Ok(body) => {
-                // a recursive function: the recursive calls of the table use fuel'
-                let body = match &t.recfuel {
-                    Some(site) => format!("match fuel with\n| O => Panic {}\n| S fuel' =>\n{}\nend", site, body),
-                    None => body,
-                };
-                text.push_str(&format!("\n(* {} :: {} *)\n", t.file, t.func));
-                text.push_str(&header);
-                if t.scope.is_empty() {
-                    text.push_str(&body);
-                } else {
-                    text.push_str(&format!("({}\n)%{}", body, t.scope));
-                }
-                text.push_str(".\n");
-            }
+        match translate_target(repo, &t0) {
+            Ok(def) => text.push_str(&def),
             Err(e) => {
-                eprintln!("rs2coq: {} :: {}: outside the translated subset: {}", t.file, t.func, e);
+                eprintln!("rs2coq: {}", e);
+                text.push_str(&format!("\n(* NOT GENERATED on this run: {} *)\n", e.replace("*)", "* )")));
+                missing.push(t0.coq.clone());
                 failed = true;
             }
         }
-    }
-    if failed {
-        std::process::exit(1);
     }
     let old = std::fs::read_to_string(out).unwrap_or_default();
     if old != text {
         std::fs::write(out, text).expect("write output");
         println!("{} regenerated", out);
     }
+    if failed {
+        std::process::exit(2); // partial: the file holds every definition that could be produced
+    }
+}
+
+// does `text` mention the identifier `name` (as a whole word)?
+fn mentions(text: &str, name: &str) -> bool {
+    let is_id = |c: char| c.is_alphanumeric() || c == '_' || c == '\'';
+    let mut start = 0;
+    while let Some(pos) = text[start..].find(name) {
+        let a = start + pos;
+        let b = a + name.len();
+        let before_ok = a == 0 || !is_id(text[..a].chars().last().unwrap());
+        let after_ok = b >= text.len() || !is_id(text[b..].chars().next().unwrap());
+        if before_ok && after_ok {
+            return true;
+        }
+        start = b;
+    }
+    false
+}
+
+fn defined_names(raw: &str) -> Vec<String> {
+    let mut out = Vec::new();
+    for l in raw.lines() {
+        let l = l.trim_start();
+        for kw in ["Definition ", "Fixpoint "] {
+            if let Some(rest) = l.strip_prefix(kw) {
+                if let Some(n) = rest.split_whitespace().next() {
+                    out.push(n.to_string());
+                }
+            }
+        }
+    }
+    out
+}
+
+fn translate_target(repo: &str, t0: &Target) -> Result<String, String> {
+    let mut text = String::new();
+    let mut t = t0.clone();
+    let src = std::fs::read_to_string(format!("{}/{}", repo, t.file)).map_err(|e| format!("{}: {}", t.file, e))?;
+    let file = syn::parse_file(&src).map_err(|e| format!("{} does not parse: {}", t.file, e))?;
+    let (sig, block) = find_fn(&file, &t.func).ok_or(format!("function {} not found in {}", t.func, t.file))?;
+    // the parameter list is part of the contract
+    let rust_params: Vec<String> = sig
+        .inputs
+        .iter()
+        .filter_map(|a| match a {
+            syn::FnArg::Typed(p) => Some(match &*p.pat {
+                Pat::Ident(i) => i.ident.to_string(), // `mut x` is the parameter x
+                other => toks(other),
+            }),
+            syn::FnArg::Receiver(_) => None,
+        })
+        .collect();
+    let declared: Vec<String> = t.params.iter().map(|p| p.0.clone()).filter(|p| p != "self" && !p.starts_with("self.")).collect();
+    if rust_params != declared {
+        return Err(format!("{} :: {}: parameters are {:?}, the table declares {:?}", t.file, t.func, rust_params, declared));
+    }
+    module_consts(&file, &mut t);
+    local_consts(block, &mut t);
+    let mut tr = Tr { t: &t, fresh: 0, env: vec![HashMap::new()], loop_depth: 0, loop_sr: Vec::new(), loop_brk: Vec::new() };
+    let kw = if t.recfuel.is_some() { "Fixpoint" } else { "Definition" };
+    let mut header = format!("{} {}", kw, t.coq);
+    if t.recfuel.is_some() {
+        header.push_str(" (fuel : nat)");
+    }
+    for (r, c, ty) in &t.params {
+        let kind = t.kinds.get(r).cloned().unwrap_or(Kind::Other);
+        tr.env[0].insert(r.clone(), (c.clone(), kind));
+        let _ = write!(header, " ({} : {})", c, ty);
+    }
+    for (c, ty) in &t.extra_params {
+        header = header.replacen(&format!("{} {}", kw, t.coq), &format!("{} {} ({} : {})", kw, t.coq, c, ty), 1);
+    }
+    if t.recfuel.is_some() {
+        header.push_str(" {struct fuel}");
+    }
+    let _ = write!(header, " : res ({}) :=\n", t.ret);
+    let body = tr
+        .seq(&block.stmts, &K::End)
+        .map_err(|e| format!("{} :: {}: outside the translated subset: {}", t.file, t.func, e))?;
+    // a recursive function: the recursive calls of the table use fuel'
+    let body = match &t.recfuel {
+        Some(site) => format!("match fuel with\n| O => Panic {}\n| S fuel' =>\n{}\nend", site, body),
+        None => body,
+    };
+    text.push_str(&format!("\n(* {} :: {} *)\n", t.file, t.func));
+    text.push_str(&header);
+    if t.scope.is_empty() {
+        text.push_str(&body);
+    } else {
+        text.push_str(&format!("({}\n)%{}", body, t.scope));
+    }
+    text.push_str(".\n");
+    Ok(text)
 }
